@@ -1,0 +1,24 @@
+// Copyright © 2026 Meroxa, Inc.
+//
+// Licensed under the Apache License, Version 2.0 (the "License");
+// you may not use this file except in compliance with the License.
+// You may obtain a copy of the License at
+//
+//     http://www.apache.org/licenses/LICENSE-2.0
+//
+// Unless required by applicable law or agreed to in writing, software
+// distributed under the License is distributed on an "AS IS" BASIS,
+// WITHOUT WARRANTIES OR CONDITIONS OF ANY KIND, either express or implied.
+// See the License for the specific language governing permissions and
+// limitations under the License.
+
+//go:build !verif
+
+// Package verifhook provides named scheduling points for runtime verification
+// harnesses. Without the "verif" build tag every function is an empty stub
+// that the compiler inlines away.
+package verifhook
+
+// Point marks a place between two critical sections. It does nothing unless
+// the binary was built with -tags verif and a handler was installed.
+func Point(string) {}
